@@ -318,6 +318,63 @@ fn sample_payload() -> Value {
     json!({"_sd_alg": "sha-256", "sub": "user_42", "n": 7})
 }
 
+fn der_integer(b: &[u8]) -> Vec<u8> {
+    let mut v: Vec<u8> = b.iter().copied().skip_while(|x| *x == 0).collect();
+    if v.is_empty() || v[0] & 0x80 != 0 {
+        v.insert(0, 0);
+    }
+    let mut out = vec![0x02, v.len() as u8];
+    out.extend(v);
+    out
+}
+
+/// ASN.1 DER Ecdsa-Sig-Value ::= SEQUENCE { r INTEGER, s INTEGER }
+fn der_signature(r: &[u8], s: &[u8]) -> Vec<u8> {
+    let mut body = der_integer(r);
+    body.extend(der_integer(s));
+    let mut out = vec![0x30];
+    if body.len() < 128 {
+        out.push(body.len() as u8);
+    } else {
+        out.push(0x81);
+        out.push(body.len() as u8);
+    }
+    out.extend(body);
+    out
+}
+
+fn hex(s: &str) -> Vec<u8> {
+    (0..s.len() / 2).map(|i| u8::from_str_radix(&s[2 * i..2 * i + 2], 16).unwrap()).collect()
+}
+
+/// order of the base point, big endian, as long as one half of a raw signature
+fn curve_order(alg: &str) -> Option<Vec<u8>> {
+    match alg {
+        "ES256" => Some(hex("FFFFFFFF00000000FFFFFFFFFFFFFFFFBCE6FAADA7179E84F3B9CAC2FC632551")),
+        "ES256K" => Some(hex("FFFFFFFFFFFFFFFFFFFFFFFFFFFFFFFEBAAEDCE6AF48A03BBFD25E8CD0364141")),
+        "ES384" => Some(hex("FFFFFFFFFFFFFFFFFFFFFFFFFFFFFFFFFFFFFFFFFFFFFFFFC7634D81F4372DDF581A0DB248B0A77AECEC196ACCC52973")),
+        "ES512" => Some(hex("01FFFFFFFFFFFFFFFFFFFFFFFFFFFFFFFFFFFFFFFFFFFFFFFFFFFFFFFFFFFFFFFFFFFFFFFFFFFFFFFFFFFFFFFFFFFFFFFFFFFA51868783BF2F966B7FCC0148F709A5D03BB5C9B8899C47AEBB6FB71E91386409")),
+        _ => None,
+    }
+}
+
+/// a - b for big-endian byte strings of equal length, a >= b
+fn be_sub(a: &[u8], b: &[u8]) -> Vec<u8> {
+    let mut out = vec![0u8; a.len()];
+    let mut borrow = 0i16;
+    for i in (0..a.len()).rev() {
+        let mut d = a[i] as i16 - b[i] as i16 - borrow;
+        if d < 0 {
+            d += 256;
+            borrow = 1;
+        } else {
+            borrow = 0;
+        }
+        out[i] = d as u8;
+    }
+    out
+}
+
 pub fn generate_c04(thorough: bool, seed: u64, em: &mut Emitter) {
     let mut r = Rng::new(seed ^ 0xC04);
     let no_exp = |alg: &str| json!({"alg": alg, "aud": null, "iss": null, "leeway": 0, "required": null, "sub": null,
@@ -358,6 +415,29 @@ pub fn generate_c04(thorough: bool, seed: u64, em: &mut Emitter) {
             c["sd"] = json!(sd);
             c["tag"] = json!("sd_string_not_byte_exact");
             em.case("decode", c);
+        }
+        // (a'') ECDSA: other byte strings for "the same" signature. JWS fixes the signature to the raw R||S octets of
+        // the signer; a DER re-encoding of (r, s), and the mirrored signature (r, n - s), are changed signature bytes
+        if alg.starts_with("ES") {
+            let segs: Vec<&str> = token.split('.').collect();
+            if let Some(raw) = indep::b64url_decode(segs[2]) {
+                let half = raw.len() / 2;
+                let (rb, sb) = (&raw[..half], &raw[half..]);
+                let mut variants: Vec<(&str, Vec<u8>)> = vec![("ecdsa_der_signature", der_signature(rb, sb))];
+                if let Some(n) = curve_order(alg) {
+                    if n.len() == sb.len() {
+                        let mut mirrored = rb.to_vec();
+                        mirrored.extend(be_sub(&n, sb));
+                        variants.push(("ecdsa_s_negated", mirrored));
+                    }
+                }
+                for (tag, sig) in variants {
+                    let m = format!("{}.{}.{}", segs[0], segs[1], indep::b64url_encode(&sig));
+                    let mut c = decode_case(&m, &no_exp(alg), &matching_key_spec(alg), alg, false, "reject", "reject", true);
+                    c["tag"] = json!(tag);
+                    em.case("decode", c);
+                }
+            }
         }
         // (b) every key with every configured algorithm
         for kalg in keys::ALL_ALGS {
